@@ -44,8 +44,9 @@ func init() {
 		Trusted: trustedBase,
 		Assume:  []string{"that the hint's index is the index of the hinted block (arithmetic, C05/C20)"},
 		Run: func(c *Ctx) {
-			ruleAlloc(c, "C07.", map[string]bool{"HINT": true, "SAMEINDEX": true, "LOCK": true}) // the block returned is the conversion of the hinted index
-			ruleLinMap(c, "C07.")                                                                // a hint at either end of the range must convert to its own index
+			ruleAlloc(c, "C07.", map[string]bool{"HINT": true, "SAMEINDEX": true, "LOCK": true, "FULL": true}) // "no address" only when none is free, whatever the hint
+			ruleConvPair(c, "C07.")                                                                            // the block returned is the conversion of the hinted index
+			ruleLinMap(c, "C07.")                                                                              // a hint at either end of the range must convert to its own index
 			ruleHintCallers(c, "C07.HINT.CALLERS")
 			ruleArith(c, "C07.") // the hinted index converts back to the hinted block only if AddPrefixes neither wraps nor reports a spurious overflow
 			ruleGeomAlias(c, "C07.")
@@ -168,6 +169,7 @@ func init() {
 			rulePrefix(c, "C08.", map[string]bool{"C08": true})
 			ruleAlloc(c, "C08.", map[string]bool{"TESTSET": true, "SAMEINDEX": true, "LOCK": true}) // disjointness across clients rests on the allocator
 			ruleGuardedBy(c, "C08.", "prefix.")
+			rulePrefixHelpers(c, "C08.")
 			rulePoolIsParsedNetwork(c, "C08.PD.POOL-ALIGNED")
 			ruleGeomAlias(c, "C08.") // what a client was told it holds stays what is recorded: no answer shares storage with a later one
 			ruleConvPair(c, "C08.")  // disjoint blocks: index and prefix conversions are the library's inverse pair
@@ -186,6 +188,7 @@ func init() {
 		Assume:  []string{"that a repeated request returns the same prefix *value* (needs run-time content of Records)", "lifetime not shorter than what remained (timing)", "recognition of the hint-less placeholder by the empty-hint filter is a value property (len/Equal of a zero-length IP) that the armed rules do not decide"},
 		Run: func(c *Ctx) {
 			rulePrefix(c, "C09.", map[string]bool{"C09": true})
+			rulePrefixHelpers(c, "C09.")
 			ruleGuardedBy(c, "C09.", "prefix.") // remembering a lease is a read-modify-write of Records: one critical section
 			fn := c.P.Func("plugins/prefix", "*Handler", "Handle")
 			sp := c.P.Anchor("samePrefix")
